@@ -1625,12 +1625,35 @@ fn dummy_functions(compiler: &PrimaryCodegen) -> Result<PrimaryCodegen, CompileE
     fold_m(
         &|compiler: &PrimaryCodegen, form: &HelperForm| match form {
             HelperForm::Defun(false, defun) => {
-                let mut c_copy = compiler.clone();
+                if compiler.parentfns.contains(&defun.name) {
+                    return Err(CompileErr(
+                        defun.loc.clone(),
+                        format!(
+                            "Cannot redefine {}",
+                            SExp::Atom(defun.loc.clone(), defun.name.clone())
+                        ),
+                    ));
+                }
+                let mut c_copy = fail_if_present(
+                    defun.loc.clone(),
+                    &compiler.inlines,
+                    &defun.name,
+                    compiler.clone(),
+                )?;
                 c_copy.parentfns.insert(defun.name.clone());
                 Ok(c_copy)
             }
             HelperForm::Defun(true, defun) => Ok(compiler)
                 .and_then(|comp| {
+                    if compiler.parentfns.contains(&defun.name) {
+                        return Err(CompileErr(
+                            defun.loc.clone(),
+                            format!(
+                                "Cannot redefine {}",
+                                SExp::Atom(defun.loc.clone(), defun.name.clone())
+                            ),
+                        ));
+                    }
                     fail_if_present(defun.loc.clone(), &compiler.inlines, &defun.name, comp)
                 })
                 .and_then(|comp| {
